@@ -95,6 +95,16 @@ class Linear(Transform):
             raise TypeError("Mode must be boolean.")
         self.using_cache = mode
 
+    def _apply(self, fn, *args, **kwargs):
+        # The parameters are about to be converted (dtype / device): cached tensors would not match them.
+        self.cache.invalidate()
+        return super()._apply(fn, *args, **kwargs)
+
+    def _load_from_state_dict(self, *args, **kwargs):
+        # The parameters are about to be replaced: cached tensors would be stale.
+        self.cache.invalidate()
+        return super()._load_from_state_dict(*args, **kwargs)
+
     def weight_and_logabsdet(self):
         # To be overridden by subclasses if it is more efficient to compute the weight matrix
         # and its logabsdet together.
